@@ -6,10 +6,10 @@ from specs.common import run, ASSUME_COMMON
 # set), slot e%72: one byte position x all 256 values (slots 0..67), all one-byte appends (68) /
 # prepends (69), all truncations/deletions/duplications (70), all 256 flag bytes x 3 propagators
 # (71); every other case is three seeded round trips (one per propagator) plus 6 generated
-# carriers.  21 600 quick cases = 12 complete bases + 20 736 random cases; 4 000 000 thorough
-# cases = 2 222 bases.
+# carriers.  21 600 quick cases = 12 complete bases + 20 736 random cases; 3 000 000 thorough
+# cases = 1 666 bases.
 SPEC = {
-    "runs": [run("e1-recogniser", "c16_b3_jaeger", "asan", 21600, 4000000, need_lib=False)],
+    "runs": [run("e1-recogniser", "c16_b3_jaeger", "asan", 21600, 3000000, need_lib=False)],
     "floors": {
         "quick": {"enum_b3_single_byte_mutants_51": 13056, "enum_jaeger_single_byte_mutants_54": 13824,
                   "enum_multi_id_single_byte_mutants": 4096, "enum_multi_sampled_values": 89,
@@ -18,11 +18,11 @@ SPEC = {
                   "roundtrips_flags_other_bits": 12000, "inject_wire_judged": 15000,
                   "extract_must_accept": 10000, "extract_undocumented_form": 30000,
                   "extract_b3_precedence_cases": 1800, "extracts_random_bytes": 3500},
-        "thorough": {"enum_b3_single_byte_mutants_51": 13056 * 150, "enum_jaeger_single_byte_mutants_54": 13824 * 150,
-                     "enum_multi_id_single_byte_mutants": 12288 * 50, "enum_flag_bytes_x_propagators": 768 * 600,
-                     "roundtrips": 4000000, "roundtrips_flags_other_bits": 2500000, "inject_wire_judged": 4000000,
-                     "extract_must_accept": 2500000, "extract_undocumented_form": 10000000,
-                     "extract_b3_precedence_cases": 400000, "extracts_random_bytes": 800000},
+        "thorough": {"enum_b3_single_byte_mutants_51": 13056 * 110, "enum_jaeger_single_byte_mutants_54": 13824 * 110,
+                     "enum_multi_id_single_byte_mutants": 12288 * 37, "enum_flag_bytes_x_propagators": 768 * 450,
+                     "roundtrips": 3000000, "roundtrips_flags_other_bits": 1800000, "inject_wire_judged": 3000000,
+                     "extract_must_accept": 1800000, "extract_undocumented_form": 7500000,
+                     "extract_b3_precedence_cases": 300000, "extracts_random_bytes": 600000},
     },
     "engine": "E1 model-oracle",
     "technique": ("round-trip equalities and an independent recogniser of the documented B3 / Jaeger header forms as oracle for the "
@@ -52,9 +52,9 @@ SPEC = {
     "coverage_extra": {
         "exhaustive_subspaces": [
             {"name": "single-byte substitutions of a valid 51-byte b3 header (51 positions x 256 values)", "size_per_base": 13056,
-             "counter": "enum_b3_single_byte_mutants_51", "bases": {"quick": 3, "thorough": 555}},
+             "counter": "enum_b3_single_byte_mutants_51", "bases": {"quick": 3, "thorough": 416}},
             {"name": "single-byte substitutions of a valid 54-byte uber-trace-id header (54 positions x 256 values)",
-             "size_per_base": 13824, "counter": "enum_jaeger_single_byte_mutants_54", "bases": {"quick": 3, "thorough": 555}},
+             "size_per_base": 13824, "counter": "enum_jaeger_single_byte_mutants_54", "bases": {"quick": 3, "thorough": 416}},
             {"name": "single-byte substitutions of the other documented b3 / uber-trace-id forms",
              "counter": "enum_b3_single_byte_mutants_other_forms + enum_jaeger_single_byte_mutants_other_forms"},
             {"name": "single-byte substitutions of X-B3-TraceId (32) and X-B3-SpanId (16); all one-byte X-B3-Sampled values",
